@@ -140,7 +140,10 @@ class _MemArr:
 class SymFFI:
     """what the code under test uses of a cffi FFI object"""
 
-    def from_buffer(self, x):
+    NULL = None
+
+    def from_buffer(self, *args, **kwargs):
+        x = args[-1]  # from_buffer([cdecl,] python_buffer, require_writable=False)
         if isinstance(x, symbuf.MemView):
             return Addr(x.mem, x.start)
         if isinstance(x, symbuf.Mem):
